@@ -283,6 +283,86 @@ theorem C16_reached_is_tolerance_test (cfg : Config S) (s : State S) (pos : V3 S
 
 end
 
+/-! ### several plugins alive at the same time
+
+  The nodes of one simulation each own a `MissionMobilityPlugin`.  The model's fleet is a list of
+  (configuration, fields) pairs and a call is made on one of them; the theorems say that this is all
+  there is: a member is where its own calls alone lead it, whatever the other members were asked in
+  between, so every clause of C16 proved above for one plugin holds for each plugin of a fleet. -/
+
+section Fleet
+variable [Scalar S]
+
+/-- a call on member `who` leaves every other member - fields and command log - exactly as it was -/
+theorem C16_fleet_others_untouched (f : List (Member S)) (who j : Nat) (op : Op S) (h : j ≠ who) :
+    (applyAt f who op).1[j]? = f[j]? := by
+  unfold applyAt
+  cases hw : f[who]? with
+  | none => rfl
+  | some m => simp [List.getElem?_set_ne (Ne.symm h)]
+
+/-- the member that is called makes exactly the step of a plugin alone, with its own configuration -/
+theorem C16_fleet_called_member (f : List (Member S)) (who : Nat) (op : Op S) (m : Member S)
+    (hm : f[who]? = some m) :
+    (applyAt f who op).1[who]? = some ⟨m.cfg, (apply m.cfg m.st op).1⟩ ∧
+    (applyAt f who op).2 = (apply m.cfg m.st op).2 := by
+  have hlt : who < f.length := by
+    rcases Nat.lt_or_ge who f.length with h | h
+    · exact h
+    · rw [List.getElem?_eq_none h] at hm; cases hm
+  have hget : f[who] = m := by
+    have := List.getElem?_eq_getElem hlt
+    rw [hm] at this
+    exact (Option.some.inj this).symm
+  unfold applyAt
+  simp [hlt, hget]
+
+/-- after ANY interleaved history every member is in the state its own calls alone lead to -/
+theorem C16_fleet_projection (f : List (Member S)) (ops : List (Nat × Op S)) (i : Nat) :
+    (runFleet f ops)[i]? = f[i]?.map (fun m => ⟨m.cfg, run m.cfg m.st (callsOn i ops)⟩) := by
+  induction ops generalizing f with
+  | nil =>
+    cases h : f[i]? <;> simp [runFleet, callsOn, run, h]
+  | cons o ops ih =>
+    have hstep : runFleet f (o :: ops) = runFleet (applyAt f o.1 o.2).1 ops := rfl
+    rw [hstep, ih]
+    by_cases hi : o.1 = i
+    · have hc : callsOn i (o :: ops) = o.2 :: callsOn i ops := by
+        simp [callsOn, hi]
+      rw [hc]
+      cases hm : f[i]? with
+      | none =>
+        have : (applyAt f o.1 o.2).1 = f := by unfold applyAt; rw [hi, hm]
+        rw [this, hm]; rfl
+      | some m =>
+        have := (C16_fleet_called_member f i o.2 m hm).1
+        rw [hi, this]
+        simp [run, List.foldl_cons]
+    · have hc : callsOn i (o :: ops) = callsOn i ops := by
+        simp [callsOn, hi]
+      rw [hc, C16_fleet_others_untouched f o.1 i o.2 (fun h => hi h.symm)]
+
+/-- C16's invariant (active ⇒ valid index, not idle, last goto = `mission[index]`; inactive ⇒ no waypoint,
+    idle, not reversed) for every member of a fleet of freshly constructed plugins after every interleaved
+    history of valid calls; the member still has the configuration it was constructed with and its state
+    is the one of a single plugin that received this member's calls -/
+theorem C16_fleet_inv (cfgs : List (Config S)) (ops : List (Nat × Op S)) (hv : ∀ o ∈ ops, o.2.valid)
+    (i : Nat) (m : Member S) (h : (runFleet (fleetInit cfgs) ops)[i]? = some m) :
+    MInv m.cfg m.st ∧ cfgs[i]? = some m.cfg ∧ m.st = run m.cfg init (callsOn i ops) := by
+  rw [C16_fleet_projection] at h
+  cases hc : cfgs[i]? with
+  | none => simp [fleetInit, hc] at h
+  | some c =>
+    simp only [fleetInit, List.getElem?_map, hc, Option.map_some, Option.some.injEq] at h
+    subst h
+    refine ⟨run_inv _ (init_inv c) ?_, rfl, rfl⟩
+    intro op hop
+    simp only [callsOn, List.mem_map, List.mem_filter] at hop
+    obtain ⟨o, ⟨ho, _⟩, rfl⟩ := hop
+    exact hv o ho
+
+end Fleet
+
 /-! ### F16: the pinned code (`len − 2` without the floor) -/
 
 /-- negative witness for finding F16.  REVERSE mode, a mission of ONE waypoint, one telemetry that reaches
@@ -349,6 +429,16 @@ example : (apply rev3 (run rev3 init [.start [A, B, C]]) (.setWaypoint 3)).2 = .
 
 /-- the command log after a bounce: newest first -/
 example : lastGoto (run rev3 init [.start [A, B, C], .telemetry A, .telemetry B, .telemetry C]).log = some B := by
+  decide
+
+/-- two plugins at once, RESTART and REVERSE on different missions, calls interleaved: each follows its own
+    mission (member 1 is sent to ITS waypoint 1, `C`, not to member 0's `B`), a member that is not called does
+    not move, and the hypothesis of `C16_fleet_inv` is satisfiable -/
+example :
+    let f := runFleet (fleetInit [(⟨5, .restart, 2⟩ : Config Int), rev3])
+      [(0, .start [A, B]), (1, .start [B, C]), (0, .telemetry A), (1, .telemetry B), (0, .telemetry B)]
+    (f[0]?.map (fun m => (m.st.wp, lastGoto m.st.log))) = some (some 0, some A) ∧
+    (f[1]?.map (fun m => (m.st.wp, m.st.reversed, lastGoto m.st.log))) = some (some 1, false, some C) := by
   decide
 
 end Examples
